@@ -59,6 +59,15 @@ theorem onflush_after_commit : onflushAfterCommit KafVerif.Gen.C01.rows = true :
 
 theorem lock_balanced : lockBalanced KafVerif.Gen.C01.rows = true := by decide +kernel
 
+/-- `BuildSegment` (which `prepareFlush` calls AFTER `Drain`) and `IndexBuilder.BuildBytes` return an error only for an empty
+batch list, an empty payload, or a failed write into a `bytes.Buffer`: the model's `buildOk false`, which is total on what
+`AppendBatch` accepts (`C01.build_total_on_accepted`) -/
+theorem build_errors_known : buildErrorsKnown KafVerif.Gen.C01.rows = true := by decide +kernel
+
+/-- every exit of `prepareFlush` behind the `Drain` call drained nothing, installed the drained batches as `flushingBatches`,
+re-queued them, or is the error exit of that (total) `BuildSegment` -/
+theorem prepare_exits_install_or_requeue : prepareExitsInstallOrRequeue KafVerif.Gen.C01.rows = true := by decide +kernel
+
 /-- AppendBatch: offset assignment and buffer append are ONE critical section (event `append` is one step) -/
 theorem append_is_one_critical_section : appendIsOneRegion KafVerif.Gen.C01.rows = true := by decide +kernel
 
@@ -76,7 +85,8 @@ theorem restore_before_register : restoreBeforeRegister KafVerif.Gen.C01.rows = 
 /-- the current source is the variant the ∀-theorems of `Props/C01.lean`, `C05.lean`, `C06.lean` are proved for
 (`C01.old_violates`, `C05.old_runs_ahead`, `C06.old_violates` refute the other settings of the first two flags) -/
 theorem log_variant_fixed : variantOf KafVerif.Gen.C01.rows = StorageLog.fixed := by
-  simp only [variantOf, failure_path_requeues_under_lock, empty_flush_target_in_prepare_region, StorageLog.fixed]
+  have h : buildErrorExitRequeues KafVerif.Gen.C01.rows = false := by decide +kernel
+  simp [variantOf, failure_path_requeues_under_lock, empty_flush_target_in_prepare_region, build_errors_known, h, StorageLog.fixed]
 
 /-! ### the table covers the model -/
 
@@ -133,31 +143,40 @@ theorem expected_compiles :
     compile flushRows = some flushCmds ∧ compile failRows = some failCmds ∧
     compile commitRows = some commitCmds := by decide +kernel
 
-/-- the rows of `prepareFlush` (+ `Drain`) = the model's `prepareFlush`, for every memory -/
-theorem prepare_denotes (cfg : Cfg) (m : Mem) :
-    ((execCmds prepareCmds { cfg := cfg, m := m }).m, (execCmds prepareCmds { cfg := cfg, m := m }).art) = prepareFlush m := by
+/-- what a run of `prepareCmds` returned: `(nil, err)`, `(artifact, nil)` or `(nil, nil)` -/
+def prepOf (k : Mach) : Prep := if k.err then .err else match k.art with | some a => .art a | none => .none
+
+/-- the rows of `prepareFlush` (+ `Drain`, + the `BuildSegment` call and ITS ERROR EXIT, which returns with the drained batches
+in no field) = the model's `prepareFlush`, for every memory, every `BuildSegment` rule and every shape whose error exit does
+not re-queue — the source's -/
+theorem prepare_denotes (cfg : Cfg) (v : Variant) (fault : Bool) (m : Mem) (hv : v.requeueBuild = false) :
+    ((execCmds prepareCmds { cfg := cfg, m := m, v := v, fault := fault }).m,
+      prepOf (execCmds prepareCmds { cfg := cfg, m := m, v := v, fault := fault })) = prepareFlush v fault m := by
   rcases m with ⟨nx, bf, fl, inf, sg⟩
   cases fl with
-  | true => simp [execCmds, prepareCmds, stepCmd, touch, condHolds, doAct, prepareFlush]
+  | true => simp [execCmds, prepareCmds, stepCmd, touch, condHolds, doAct, prepareFlush, prepOf]
   | false =>
     cases bf with
-    | nil => simp [execCmds, prepareCmds, stepCmd, touch, condHolds, doAct, prepareFlush]
-    | cons b bs => simp [execCmds, prepareCmds, stepCmd, touch, condHolds, doAct, prepareFlush]
+    | nil => simp [execCmds, prepareCmds, stepCmd, touch, condHolds, doAct, prepareFlush, prepOf]
+    | cons b bs =>
+      cases hb : buildFails v fault (b :: bs) <;>
+        simp [execCmds, prepareCmds, stepCmd, touch, condHolds, doAct, prepareFlush, prepOf, hb, hv]
 
-/-- model event `append t n` = the rows of AppendBatch's critical section (snapshot nextOffset, bump it, Append,
-ShouldFlush → prepareFlush), for every state -/
-theorem append_step_denotes (v : Variant) (s : State) (m : Mem) (t n : Nat)
-    (hm : s.mem = some m) (hp : s.pcs t = .idle) (hn : 1 ≤ n) :
-    let k := execCmds appendCmds { cfg := s.cfg, m := m, id := s.nextId, n := n }
-    let b : Batch := ⟨s.nextId, m.next, n⟩
-    step v s (.append t n) = some
-      (match k.art with
+/-- model event `append t n mc len` = the rows of AppendBatch's critical section (snapshot nextOffset, bump it, Append,
+ShouldFlush → prepareFlush; a `prepareFlush` error makes AppendBatch return it), for every state -/
+theorem append_step_denotes (v : Variant) (s : State) (m : Mem) (t n : Nat) (mc : Int) (len : Nat)
+    (hm : s.mem = some m) (hp : s.pcs t = .idle) (hn : 1 ≤ n) (hl : 8 ≤ len) :
+    let k := execCmds appendCmds { cfg := s.cfg, m := m, v := v, fault := s.fault, id := s.nextId, n := n, mc := mc, len := len }
+    let b : Batch := ⟨s.nextId, m.next, n, mc, len⟩
+    step v s (.append t n mc len) = some
+      (if k.err then { setPc { s with nextId := s.nextId + 1 } t (.failed b) with mem := some k.m }
+       else match k.art with
        | some art => { setPc { s with nextId := s.nextId + 1 } t (.up true b art none none) with mem := some k.m }
        | none => { setPc { s with nextId := s.nextId + 1 } t (.appended b) with mem := some k.m }) := by
   intro k b
-  simp only [step, hm, hp, hn, if_true]
-  by_cases hs : shouldFlush s.cfg (m.buffer ++ [{ id := s.nextId, base := m.next, n := n }]) = true
-  · rcases hpf : prepareFlush { m with next := m.next + n, buffer := m.buffer ++ [{ id := s.nextId, base := m.next, n := n }] } with ⟨m2, a⟩
+  simp only [step, hm, hp, hn, hl, and_self, if_true]
+  by_cases hs : shouldFlush s.cfg (m.buffer ++ [{ id := s.nextId, base := m.next, n := n, mc := mc, len := len }]) = true
+  · rcases hpf : prepareFlush v s.fault { m with next := m.next + n, buffer := m.buffer ++ [{ id := s.nextId, base := m.next, n := n, mc := mc, len := len }] } with ⟨m2, a⟩
     cases a <;>
       simp [k, b, execCmds, appendCmds, stepCmd, touch, condHolds, doAct, hs, hpf]
   · simp [k, b, execCmds, appendCmds, stepCmd, touch, condHolds, doAct, hs]
@@ -165,9 +184,10 @@ theorem append_step_denotes (v : Variant) (s : State) (m : Mem) (t n : Nat)
 /-- model events `flush t` / `wake t` (`flushEnter`) = the rows of Flush's critical section: wait while `l.flushing`
 (back to the loop head when woken), else prepareFlush and — in the same critical section — the empty-flush target -/
 theorem flush_enter_denotes (s : State) (m : Mem) (t : Nat) (b : Batch) :
-    let k := execCmds flushCmds { cfg := s.cfg, m := m }
+    let k := execCmds flushCmds { cfg := s.cfg, m := m, fault := s.fault }
     flushEnter fixed s m t b =
       if k.waiting then setPc s t (.waitF b)
+      else if k.err then { setPc s t (.failed b) with mem := some k.m }
       else match k.art with
         | some art => { setPc s t (.up false b art none none) with mem := some k.m }
         | none =>
@@ -180,7 +200,10 @@ theorem flush_enter_denotes (s : State) (m : Mem) (t : Nat) (b : Batch) :
   | false =>
     cases hb : m.buffer with
     | nil => simp [k, execCmds, flushCmds, stepCmd, touch, condHolds, doAct, flushEnter, prepareFlush, emptyTarget, fixed, hf, hb]
-    | cons x xs => simp [k, execCmds, flushCmds, stepCmd, touch, condHolds, doAct, flushEnter, prepareFlush, hf, hb]
+    | cons x xs =>
+      cases hbf : buildFails fixed s.fault (x :: xs) <;>
+        simp [k, execCmds, flushCmds, stepCmd, touch, condHolds, doAct, flushEnter, prepareFlush, hf, hb, hbf]
+      simp [fixed]
 
 /-- model event `finish t`, failure case = the rows of uploadFlush's failure branch (Requeue, clear flushing, clear
 flushingBatches — in this order, one critical section); the commit rows do nothing on this path -/
@@ -230,7 +253,28 @@ example : registryRecheckInFlight (expected.filter fun r => !(r.fid == Fn.getPar
   decide +kernel
 example : restoreBeforeRegister (expected.map fun r =>
     if r.ev.isCallOf "plog" "RestoreFromS3" then { r with guard := r.guard ++ ["nextOffset > 0"] } else r) = false := by decide +kernel
-example : (execCmds failCmds { cfg := ⟨0, 0⟩, m := ⟨3, [⟨2, 2, 1⟩], true, [⟨0, 0, 1⟩, ⟨1, 1, 1⟩], []⟩, err := true }).m =
-    ⟨3, [⟨0, 0, 1⟩, ⟨1, 1, 1⟩, ⟨2, 2, 1⟩], false, [], []⟩ := by decide +kernel
+example : (execCmds failCmds { cfg := ⟨0, 0⟩, m := ⟨3, [⟨2, 2, 1, 1, 72⟩], true, [⟨0, 0, 1, 1, 72⟩, ⟨1, 1, 1, 1, 72⟩], []⟩, err := true }).m =
+    ⟨3, [⟨0, 0, 1, 1, 72⟩, ⟨1, 1, 1, 1, 72⟩, ⟨2, 2, 1, 1, 72⟩], false, [], []⟩ := by decide +kernel
+-- a validation of the declared record count in BuildSegment (the hardening change) is not one of the known error returns
+example : buildErrorsKnown (expected.flatMap fun r =>
+    if r.fid == Fn.buildSegment && r.ev.isCallOf "index" "MaybeAdd" then
+      [{ r with guard := r.guard ++ ["batch.MessageCount < 0"], ev := .ret ["nil", "fmt.Errorf(..)"] ["const", "call"] false },
+       { r with guard := r.guard ++ ["!(batch.MessageCount < 0)"] }]
+    else [r]) = false := by decide +kernel
+example : prepareExitsInstallOrRequeue (expected.flatMap fun r =>
+    if r.fid == Fn.buildSegment && r.ev.isCallOf "index" "MaybeAdd" then
+      [{ r with guard := r.guard ++ ["batch.MessageCount < 0"], ev := .ret ["nil", "fmt.Errorf(..)"] ["const", "call"] false }, r]
+    else [r]) = false := by decide +kernel
+-- an early return between Drain and the install of flushingBatches drops what was drained
+example : prepareExitsInstallOrRequeue (expected.flatMap fun r =>
+    if r.fid == Fn.prepareFlush && r.ev == .write "l.flushing" "true" then
+      [{ r with guard := r.guard ++ ["len(batches) > 1000"], ev := .ret ["nil", "nil"] ["const", "const"] false }, r]
+    else [r]) = false := by decide +kernel
+-- with a Requeue(batches) on the BuildSegment-error exit the obligation holds whatever BuildSegment rejects
+example : prepareExitsInstallOrRequeue (expected.flatMap fun r =>
+    if r.fid == Fn.buildSegment && r.ev.isCallOf "index" "MaybeAdd" then
+      [{ r with guard := r.guard ++ ["batch.MessageCount < 0"], ev := .ret ["nil", "fmt.Errorf(..)"] ["const", "call"] false }, r]
+    else if r.fid == Fn.prepareFlush && r.ev.isErrRet then [{ r with ev := requeueDrainedEv }, r]
+    else [r]) = true := by decide +kernel
 
 end KafVerif.C01
